@@ -460,3 +460,93 @@ def _tile_post2(S, o):
 
 FactoriesC.methods['tile'] = [Variant('no-shuffle', params={'reps': 'int', 'shuffle': 'false'}, post=_tile_post2,
                                       hooks=_tile_hooks(), props=('C01', 'C08', 'C16'))]
+
+
+# ------------------------------------------------------------------ remaining thin factories
+def _bucket_factory_post(S, o):
+    env = S.eng.entry_env
+    if o.kind != 'return' or not isinstance(o.value, StageV) or o.value.cls != 'DynamicBucketDataset':
+        return [('factory:returns-DynamicBucketDataset', smt.F)]
+    v = o.value
+    names = ['bucket_cls', 'expiration', 'max_buffered_examples', 'drop_incomplete', 'sort_key', 'reverse_sort']
+    ok = len(v.args) == 1 and all(v.kwargs.get(k) is env[k] for k in names)
+    extra = set(v.kwargs) - set(names)
+    return [('C17:batch_dynamic_bucket-passes-every-option-on-unchanged', z3.BoolVal(bool(ok))),
+            ('C17:batch_dynamic_bucket-input-is-self', is_self(S, v.args[0]) if v.args else smt.F),
+            ('C17:bucket-keyword-arguments-are-forwarded', z3.BoolVal(extra <= {'**'} or all(k.startswith('**') for k in extra))),
+            ('C08:construction-evaluates-nothing', z3.BoolVal(not S.st.ghost.get('log')))]
+
+
+def _ts_factory_post(S, o):
+    env = S.eng.entry_env
+    if o.kind != 'return' or not isinstance(o.value, StageV) or o.value.cls != 'DynamicBucketDataset':
+        return [('factory:returns-DynamicBucketDataset', smt.F)]
+    v = o.value
+    names = ['batch_size', 'len_key', 'max_padding_rate', 'max_total_size', 'expiration', 'max_buffered_examples',
+             'drop_incomplete', 'sort_key', 'reverse_sort']
+    ok = all(v.kwargs.get(k) is env[k] for k in names)
+    bc = v.kwargs.get('bucket_cls')
+    return [('C17:time-series-buckets-use-DynamicTimeSeriesBucket', z3.BoolVal(isinstance(bc, ClassV) and bc.name == 'DynamicTimeSeriesBucket')),
+            ('C17:batch_dynamic_time_series_bucket-passes-every-option-on-unchanged', z3.BoolVal(bool(ok))),
+            ('C17:input-is-self', is_self(S, v.args[0]) if v.args else smt.F),
+            ('C08:construction-evaluates-nothing', z3.BoolVal(not S.st.ghost.get('log')))]
+
+
+def _op(name):
+    return lambda e, s: OpaqueV(name)
+
+
+def _thin_hooks():
+    def resolve_call(eng, st, f, args, kwargs, node):
+        # self.batch_dynamic_bucket(...) / self.map(...) of the abstract self: the real method, inlined
+        if isinstance(f, BoundV) and isinstance(f.recv, DSRefV) and f.name in ('batch_dynamic_bucket', 'map'):
+            return eng.inline_call('core:Dataset.%s' % f.name, [f.recv] + list(args), kwargs, st)
+        return None
+    return {'resolve_call': resolve_call}
+
+
+def _diskcache_post(S, o):
+    env = S.eng.entry_env
+    if o.kind != 'return' or not isinstance(o.value, StageV) or o.value.cls != 'DiskCacheDataset':
+        return [('factory:returns-DiskCacheDataset', smt.F)]
+    v = o.value
+    return [('C11:diskcache-passes-directory-reuse-and-clear-on-in-this-order',
+             z3.BoolVal(len(v.args) == 4 and v.args[1] is env['cache_dir'] and v.args[2] is env['reuse'] and v.args[3] is env['clear'])),
+            ('C11:diskcache-input-is-self', is_self(S, v.args[0]) if v.args else smt.F)]
+
+
+def _batch_map_serial_post(S, o):
+    env = S.eng.entry_env
+    v = o.value if o.kind == 'return' else None
+    if not (isinstance(v, StageV) and v.cls == 'MapDataset'):
+        return [('batch_map:without-workers-builds-a-MapDataset', smt.F)]
+    w = v.args[0]
+    return [('C08:batch_map-wraps-the-function-in-_BatchMapWrapper',
+             z3.BoolVal(isinstance(w, StageV) and w.cls == '_BatchMapWrapper' and len(w.args) == 1 and w.args[0] is env['map_fn'])),
+            ('batch_map:input-is-self', is_self(S, v.args[1])),
+            ('C08:construction-evaluates-nothing', z3.BoolVal(not S.st.ghost.get('log')))]
+
+
+class ThinFactoriesC(DatasetC):
+    methods = {
+        'batch_dynamic_bucket': [Variant('forward', params={'bucket_cls': _op('bucket_cls'), 'expiration': 'int',
+                                                            'max_buffered_examples': 'int', 'drop_incomplete': 'bool',
+                                                            'sort_key': 'fn', 'reverse_sort': 'bool'},
+                                         post=_bucket_factory_post, props=('C17', 'C08'))],
+        'batch_dynamic_time_series_bucket': [Variant('forward', params={
+            'batch_size': 'int', 'len_key': 'fn', 'max_padding_rate': _op('rate'), 'max_total_size': 'int', 'expiration': 'int',
+            'max_buffered_examples': 'int', 'drop_incomplete': 'bool', 'sort_key': 'fn', 'reverse_sort': 'bool'},
+            post=_ts_factory_post, hooks=_thin_hooks(), props=('C17', 'C08'))],
+        'diskcache': [Variant('forward', params={'cache_dir': _op('dir'), 'reuse': 'bool', 'clear': 'bool'},
+                              post=_diskcache_post, props=('C11',))],
+        'batch_map': [Variant('serial', params={'map_fn': 'fn', 'num_workers': (lambda e, s: IntV(0)), 'buffer_size': 'int',
+                                                'backend': (lambda e, s: StrV('t'))},
+                              post=_batch_map_serial_post, hooks=_thin_hooks(), props=('C08',))],
+        '__call__': [Variant('call', post=lambda S, o: [('C01:calling-a-dataset-is-iterating-it',
+                                                         z3.BoolVal(o.kind == 'return' and isinstance(o.value, IterV)
+                                                                    and getattr(o.value, 'of_self', True)))],
+                             props=('C01',))],
+    }
+
+
+CONTRACTS = CONTRACTS + [ThinFactoriesC()]
